@@ -15,3 +15,21 @@ package redirect
 //@ // captured at setup time and its TLS config exist (GetConfig's contract, casket_api)
 //@ func redirParse$1$1
 //@   requires cfg != nil && cfg.TLS != nil
+
+//@ unit redirect_handler frames=on props=C12 nilchecks=on filter=`redirect\.Redirect\)\.ServeHTTP$`
+//@ // C12: either a rule matches - then exactly one response is sent here (a redirect header or the meta-refresh page), the
+//@ // next handler is NOT called and the handler reports "already written" (0, nil) - or the request is passed on once and the
+//@ // next handler's answer is returned with nothing sent here
+//@ use @verif/specs/stdlib.spec:handler_chain
+//@ extern github.com/tmpim/casket/caskethttp/httpserver.NewReplacer
+//@   ensures result != nil
+//@ extern invoke:(github.com/tmpim/casket/caskethttp/httpserver.Replacer).Replace
+//@ extern html.EscapeString
+//@ func schemeMatches
+//@   pure
+//@ extern invoke:(github.com/tmpim/casket/caskethttp/httpserver.RequestMatcher).Match
+//@ func (Redirect).ServeHTTP
+//@   requires w != nil && r != nil && r.URL != nil && rd.Next != nil
+//@   modifies ghost:nextCalls, ghost:nextRet, ghost:hw, ghost:bodyWrites
+//@   ensures [answers_itself_once_or_passes_on_once] (nextCalls == old(nextCalls) && result0 == 0 && result1 == nil && hw + bodyWrites == old(hw) + old(bodyWrites) + 1) || (nextCalls == old(nextCalls) + 1 && result0 == nextRet && hw == old(hw) && bodyWrites == old(bodyWrites))
+//@   loop 1 invariant nextCalls == old(nextCalls) && hw == old(hw) && bodyWrites == old(bodyWrites)
